@@ -125,16 +125,6 @@ def register(reg):
                       ("stops", "HCT_Stops(self, self.path)", "C05 C06"),
                       ("greedy", "Greedy(self.path)", "C05"),
                       ("result", "result is self.curr_node.c_point", "C01 C04")])
-    # get_last_point is pull(0): it rewrites the pending (path, curr_node) that the next receive_reward credits, so it must
-    # leave the path the selection rule determines (which is unique for a given state)
-    fn("HCT.get_last_point", N=N, props="C01 C04 C05 C15", params={}, returns="list[real]",
-       requires=INV, modifies=["self.path", "self.curr_node", "self.tau_h"],
-       ensures=INV + [("taus", TAUS, "C06"),
-                      ("path", "defined(self.path) and defined(self.curr_node) and fresh(self.path) and PathOK(self.partition, self.path)", "C04 C05"),
-                      ("end", "self.curr_node is self.path[len(self.path) - 1] and self.path[0] is self.partition.root", "C05"),
-                      ("stops", "HCT_Stops(self, self.path)", "C04 C05 C06"),
-                      ("greedy", "Greedy(self.path)", "C04 C05"),
-                      ("result", "result is self.curr_node.c_point", "C01 C04")])
 
     # ---------------------------------------------------------------- updateAllTree / receive_reward (C03 C04 C05 C06)
     DT0 = ("(1 if self.c1 * self.delta / tplus(old(self.iteration)) >= 1 else self.c1 * self.delta / tplus(old(self.iteration)))")
@@ -183,7 +173,7 @@ def register(reg):
                        ("taus", "defined(self.tau_h) and len(self.tau_h) == self.partition.depth + 1", "C01 C06")],
        modifies=[m.replace("path", "self.path") for m in UPD_MOD],
        ensures=INV + selfpath(AFTER))
-    fn("HCT.get_last_point", N=N, props="C01 C15", params={}, returns="list[real]",
+    fn("HCT.get_last_point", N=N, props="C01 C04 C05 C15", params={}, returns="list[real]",
        requires=INV, modifies=["self.path", "self.curr_node", "self.tau_h"],
        ensures=INV + [("result", "defined(self.curr_node) and result is self.curr_node.c_point", "C01"),
                       # a recommendation query re-derives the pull path by the same rule (so it is harmless between rounds)
